@@ -1,14 +1,102 @@
-(* C27: HTTP/1 responses to clients are correctly framed.  Property theorems only. *)
+(* C27: HTTP/1 responses to clients are correctly framed.  Property theorems only.
+   Model: Http1Resp.v (response.WriteHeader/write/finishRequest, chunkWriter.writeHeader/Write/close, the 512-byte
+   bufio between them, sendResponse/copyResponse) after the /repo fix a550697; reference parser ref_parse. *)
 From Coq Require Import List ZArith Bool.
 From Bfe Require Import lib.Val lib.Bytes model.Http1Resp run.RunC27 proofs.Http1RespProofs.
 Import ListNotations.
 Open Scope Z_scope.
 
+(* Whatever a module (or, through backend_view, a backend) supplies as status, header h and body pieces, for every
+   request version / method / Connection wish q and both copy modes ff (buffered io.Copy, or flush-per-write):
+   let (out, close) be the bytes BFE writes and its decision to close the connection.  Provided
+     - the supplied header is well formed (wf_hdrs: token names in canonical spelling, no Transfer-Encoding,
+       at most one Content-Length, a decimal number of at most 18 digits),
+     - and, when the response can carry a body (not HEAD, status not 1xx/204/304), the supplier is consistent
+       (its reader does not fail and a declared Content-Length equals the body length),
+   then for EVERY byte string `tail` that follows on the connection (the next response; necessarily empty when BFE
+   closes), the strict reference parser reads out ++ tail as exactly one complete response with the same HTTP
+   version and status, whose body is the supplied body (empty for HEAD / 1xx / 204 / 304), framed by Content-Length
+   (1), chunked (2) or the end of the connection (3, then BFE does close), none (0) exactly when no body is
+   allowed - and the parser stops exactly at `tail`: the next response starts where this one ends.
+   The parsed header is the written header of writeHeader's decision (fs_of ...), see C27_headers_preserved. *)
+Theorem C27_parses_as_one :
+  forall q ff status h pieces err tail out close dr,
+  wf_hdrs h = true -> (q_minor q = 0 \/ q_minor q = 1) -> 100 <= status <= 599 ->
+  blen (concat pieces) < 2 ^ 62 ->
+  (expects_b q status = true ->
+   err = false /\ forall v, get_all s_cl h = [v] -> parse_dec v = Some (blen (concat pieces))) ->
+  respond q (false, false, false) ff status h pieces err = (out, close, dr) ->
+  (close = true -> tail = []) ->
+  exists fs fr,
+    ref_parse (q_head q) (out ++ tail) =
+      Some (mkp (q_minor q) status fs fr (if expects_b q status then concat pieces else []) true tail) /\
+    (fr =? 0) = negb (expects_b q status) /\
+    exists clen hdone p, fs = fs_of (d_fields (wh q status h clen hdone p)) (d_extra (wh q status h clen hdone p)).
+Proof. exact parses_as_one. Qed.
+Print Assumptions C27_parses_as_one.
+
+(* "the same end-to-end headers": the header the reference parser reads back (fs_of of writeHeader's decision,
+   for every request, status, Content-Length state, and first-write) satisfies headers_ok against the supplied
+   header h: for every supplied field name other than the framing fields (Content-Length, Transfer-Encoding,
+   Connection; Content-Type on a 304) the same values in the same order, cleaned of line breaks and outer
+   blanks; nothing else but framing fields and at most one added Date / Content-Type when none was supplied. *)
+Theorem C27_headers_preserved :
+  forall q status h clen hdone p, forallb key_ok h = true ->
+  headers_ok status h (fs_of (d_fields (wh q status h clen hdone p)) (d_extra (wh q status h clen hdone p))) = true.
+Proof. exact headers_preserved. Qed.
+Print Assumptions C27_headers_preserved.
+
+(* The central statement: on every input whose response comes from a module (src 0: before, src 2: after the
+   cluster lookup) with a well-formed header and a consistent supplier, the executable property prop_C27 - the one
+   evaluated on the bytes of the real server on every run - holds of the model's own output. *)
+Theorem C27_prop_of_model_module :
+  forall i c, dec_C27 i = Some c -> i_src c <> 1 ->
+  (q_minor (i_q c) = 0 \/ q_minor (i_q c) = 1) -> 100 <= i_status c <= 599 ->
+  wf_hdrs (i_hdrs c) = true -> blen (supplied_body c) < 2 ^ 62 -> irregular c = false ->
+  prop_C27 i (run_C27 i) = true.
+Proof. exact prop_of_model_module. Qed.
+Print Assumptions C27_prop_of_model_module.
+
+(* C27_head_and_bodyless_empty: a response that cannot carry a body (HEAD request, or status 1xx / 204 / 304)
+   is never switched to chunked encoding by writeHeader, whatever the supplier's header and body are. *)
+Theorem C27_head_and_bodyless_never_chunked :
+  forall q status h clen hdone p,
+  q_head q || negb (body_allowed_status status) = true ->
+  d_chunking (write_header sniff_text fixed_date true body_allowed_status q (false, false, false) status h clen false hdone p) = false.
+Proof. exact nobody_not_chunked. Qed.
+Print Assumptions C27_head_and_bodyless_never_chunked.
+
+(* The chunked body BFE writes for any list of non-empty writes decodes, by the strict chunk parser, to their
+   concatenation, and the parser stops exactly at the byte after the last-chunk, whatever follows. *)
+Theorem C27_chunked_body_decodes :
+  forall ws fuel acc t,
+  forallb (fun d => negb (is_empty d) && (blen d <? 16 ^ 16)) ws = true -> (length ws < fuel)%nat ->
+  strict_chunks fuel (concat (map write_chunk ws) ++ last_chunk ++ t) acc = Some (acc ++ concat ws, t, true).
+Proof. exact strict_chunks_written. Qed.
+Print Assumptions C27_chunked_body_decodes.
+
 (* The code before the /repo fix (response.bodyAllowed excluded only 304): a module response with status 204
-   and a 5-byte body on an HTTP/1.1 keep-alive connection is written as a 204 header followed by the 5 bytes
-   and the connection stays open: the client takes "hello" for the start of the next response. *)
+   and a 5-byte body on an HTTP/1.1 keep-alive connection was written as a 204 header followed by the 5 bytes
+   with the connection left open: the client takes "hello" for the start of the next response.  On the same
+   input the fixed code satisfies the property. *)
 Theorem C27_old_bodyless_refuted :
   exists i, dec_C27 i <> None /\
     prop_C27 i (VB (old_exchange_of i)) = false /\ prop_C27 i (run_C27 i) = true.
 Proof. exact old_bodyless_refuted. Qed.
 Print Assumptions C27_old_bodyless_refuted.
+
+(* Non-vacuity of C27_parses_as_one: a 200 with a declared Content-Length, two header fields and a 5-byte body
+   on HTTP/1.1 meets the hypotheses, and so does a 600-byte body without declared length (chunked). *)
+Example C27_parses_as_one_nonvacuous :
+  wf_hdrs ex_h1 = true /\ expects_b ex_q 200 = true /\ get_all s_cl ex_h1 = [[53]] /\
+  parse_dec [53] = Some (blen (concat [ex_body5])) /\
+  wf_hdrs ex_h2 = true /\ get_all s_cl ex_h2 = [] /\
+  snd (fst (respond ex_q (false, false, false) false 200 ex_h2 [repeat 97 600] false)) = false.
+Proof. exact parses_as_one_nonvacuous. Qed.
+
+(* Non-vacuity of C27_prop_of_model_module: a module response after the cluster lookup (flush-per-write mode),
+   200, declared Content-Length 5, body delivered in two pieces. *)
+Example C27_prop_of_model_nonvacuous :
+  exists c, dec_C27 witness_200 = Some c /\ i_src c <> 1 /\ wf_hdrs (i_hdrs c) = true /\
+            expects_body c = true /\ irregular c = false /\ blen (supplied_body c) = 5.
+Proof. exact prop_of_model_nonvacuous. Qed.
